@@ -39,6 +39,8 @@ WPrefix == <<Reg("a1", "t1", 0), In("o1", "a1"), In("o2", "a1"), Bls("o1"), Bls(
 Task(r, s, c) == E("CreateTask", [t |-> "t1", caller |-> "w1", resp |-> r, stat |-> s, chal |-> c])
 c_PREFIX_COV == {Append(WPrefix, Task(v[1], v[2], v[3])) :
                    v \in {<<0, 0, 0>>, <<0, 1, 1>>, <<1, 2, 2>>}}
+\* side classes (unregistered submitter, response with another task id, empty signature): one task (0,1,1)
+c_PREFIX_COV2 == {Append(WPrefix, Task(0, 1, 1))}
 c_PREFIX_COVT == {Append(WPrefix, Task(r, s, c)) : r \in {0, 1, 2}, s \in {0, 1, 2}, c \in {0, 1, 2}}
 \* deviations of the current tree (EmptySigPhase1 left with fix 9d0a8b8, ChallengeWrapNil with fix 4ac3ef5)
 c_DEVS_ALL == {"SymDiff"}
